@@ -5,6 +5,9 @@ C20.a publish sequence of LocalBackend::write_bytes: open(tmp) -> set_len -> io:
   name flows only into rename's target (and the post-create command); the temporary file is removed on the error path.
 C20.b temporary and foreign names are never listed: the suffix contains a non-hex character; both listing functions of
   the local backend (and of the OpenDAL backend) accept an entry only if it is a file and Id::parse_some accepts its name.
+  (temp name recognised through `+ "suffix"` or format!; open through OpenOptions or File::create; the result of the helper
+  consumed by match, `?` or `if let Err`.) Ok is returned only after the rename; the temp file's own name is the last path
+  component + non-hex suffix; a reader hitting EOF early is an error.
 C20.c ranged read: seek(Start(offset)) precedes read_exact into a buffer of `length` bytes; every step is `?`-propagated.
 C20.e no file-system error of the local backend is dropped (exceptions: temp-file cleanup, warn-only hook commands).
 """
